@@ -70,6 +70,10 @@ class ReaderCfg(Cfg):
         return text
 
     def consistent(self, val):
+        # the watch maps are keyed by paths (bytes): `None` (an unknown move source) is never a key
+        for m in MAPS:
+            if val.get(f"None in {m}") is True:
+                return False
         for grp in self.exclusive:
             if sum(1 for a in grp if val.get(a) is True) > 1:
                 return False
